@@ -46,15 +46,14 @@ func (h *handler) authenticate(resp http.ResponseWriter, req *http.Request) bool
 		ad := &AuthData{}
 		err = h.sc.Decode(authcookie, cookie.Value, ad)
 		if err == nil {
-			if ad.Expiration.Before(time.Now()) {
-				return true
-			}
-			inOrg, err := h.userInOrg(ad.AccessToken)
-			if err != nil {
-				log.Errorf("Unable to check if user is in org: %v", err)
-			} else if inOrg {
-				ad.Expiration = time.Now().Add(sessionTimeout)
-				return true
+			if !ad.Expiration.Before(time.Now()) {
+				inOrg, err := h.userInOrg(ad.AccessToken)
+				if err != nil {
+					log.Errorf("Unable to check if user is in org: %v", err)
+				} else if inOrg {
+					ad.Expiration = time.Now().Add(sessionTimeout)
+					return true
+				}
 			}
 		}
 	}
